@@ -17,7 +17,8 @@ RULE = ("1..3 real instances, each with browsers (start offsets 0/1/998/999/1000
         "question inside one instance or on two hosts) and service-info lookups (timeouts 200 ms..10 s, forced QU/QM or "
         "default), some with registered services so that they hear questions as authoritative responders; a scripted "
         "peer pre-loads the caches with 0/3/40/400 PTR records per type (the known-answer list then overflows one "
-        "packet) and SRV/TXT/address records at ages just below/at/above half their TTL. Every query datagram is decoded "
+        "packet) and SRV/TXT/address records at ages just below/at/above half their TTL, and sends partial (SRV-only/TXT-only) "
+        "answers 0.1..3.4 s into a lookup so that it is woken early without completing. Every query datagram is decoded "
         "by the independent codec and compared with the per-host reference cache and question history. Non-trivial = at "
         "least 3 query transmissions were judged and at least one carried known answers or was a repeated question.")
 ASSUMPTIONS = [
@@ -94,9 +95,17 @@ def generate(rng, tier):
     # lookups
     for i, tg in enumerate(targets):
         h = rng.choice(hosts)
-        ops.append({"t": round(base + rng.choice(OFFS) + rng.choice([0.0, 0.5, 2.0]), 6), "op": "lookup", "h": h, "type": T1,
+        t_lk = round(base + rng.choice(OFFS) + rng.choice([0.0, 0.5, 2.0]), 6)
+        ops.append({"t": t_lk, "op": "lookup", "h": h, "type": T1,
                     "name": tg["svc"]["name"], "timeout": rng.choice([200, 1000, 3000, 10000]),
                     "qtype": rng.choice([None, None, "QU", "QM"])})
+        if rng.random() < 0.5:
+            # partial answers while the lookup waits: they wake it early without completing it
+            r = SvcRecords(tg["svc"])
+            for _ in range(rng.choice([1, 1, 2])):
+                part = rng.choice([[r.txt], [r.srv], [r.srv, r.txt]])
+                ops.append({"t": round(t_lk + rng.choice([0.1, 0.3, 0.45, 0.8, 1.3, 2.2, 3.4]) + rng.random() * 0.05, 6),
+                            "op": "send", "p": "P", "msg": {"qr": 1, "an": [x.to_json() for x in part]}})
         if rng.random() < 0.4:
             h2 = rng.choice(hosts)
             ops.append({"t": round(base + rng.choice(OFFS) + rng.choice([0.0, 0.5]), 6), "op": "lookup", "h": h2, "type": T1,
